@@ -108,6 +108,102 @@ Proof.
   unfold fetch_finish, create_storage. cbn [andb]. rewrite T2. exact C2.
 Qed.
 
+(* ---- the deletion recorded at ANY stage of a fetch / put before the creating transaction commits *)
+Lemma inject_tombs : forall del i order s, Inv s -> del <> 0 -> tomb i (inject del i order s) = true.
+Proof.
+  intros del i order s HI Hd. unfold inject. apply N.eqb_neq in Hd. rewrite Hd.
+  destruct (do_settings_step [i] s HI) as [I1 E1].
+  assert (Hq : status i (do_settings [i] s) <> 0).
+  { unfold do_settings. apply st_add_marks; [apply settings_fields_step; exact HI|].
+    unfold sunion. cbn [fold_left]. rewrite memb_sadd, N.eqb_refl. reflexivity. }
+  destruct (del =? 1); [now apply status_pos_tomb|].
+  destruct (worker_step order never [] _ I1) as [I2 E2].
+  apply status_pos_tomb. destruct E2 as [Hm _]. specialize (Hm i). lia.
+Qed.
+
+Lemma inject_no_chg : forall del i order s, Inv s -> has_chg i s = false -> del <> 0 ->
+  has_chg i (inject del i order s) = false.
+Proof.
+  intros del i order s HI C Hd. unfold inject. apply N.eqb_neq in Hd. rewrite Hd.
+  destruct (do_settings_step [i] s HI) as [I1 E1].
+  assert (Hq : status i (do_settings [i] s) <> 0).
+  { unfold do_settings. apply st_add_marks; [apply settings_fields_step; exact HI|].
+    unfold sunion. cbn [fold_left]. rewrite memb_sadd, N.eqb_refl. reflexivity. }
+  assert (C1 : has_chg i (do_settings [i] s) = false).
+  { unfold has_chg, do_settings. rewrite st_add_chg. exact C. }
+  destruct (del =? 1); [exact C1|].
+  destruct (worker_step order never [] _ I1) as [I2 E2].
+  destruct (has_chg i (worker order never [] (do_settings [i] s))) eqn:C2; [|reflexivity].
+  destruct E2 as [_ [_ E2]]. destruct (E2 i C2) as [H|[H|H]]; [congruence| |contradiction].
+  rewrite (status_no_entry _ _ H) in Hq. contradiction.
+Qed.
+
+(* Whatever the stage (0..4: after the local lookup, before the request, response in flight, deferred storage handed
+   out / validation, entry of the first AddAll) and however it is recorded (queued only, or worker run as well): the
+   fetch fails as already deleted and the state is exactly the one the recorded deletion alone produces - nothing of
+   the fetched tree is stored.  In particular the outcome is THE SAME for all these stages. *)
+Theorem fetch_staged_before_commit : forall s i p d h stage del order,
+  Inv s -> has_storage i s = false -> tomb i s = false -> del <> 0 -> stage <= 4 ->
+  step true s (OpFetchStaged i p d h stage del order) = (inject del i order s, OErrDeleted).
+Proof.
+  intros s i p d h stage del order HI Hs T Hd Hst. cbn [step]. unfold fetch_staged. rewrite Hs.
+  pose proof (inject_tombs del i order s HI Hd) as TI.
+  unfold inject_at, mid_stage. destruct (stage =? 0) eqn:E0.
+  - rewrite TI. reflexivity.
+  - rewrite T. apply N.eqb_neq in E0.
+    assert (L1 : (1 <=? stage) = true) by (apply N.leb_le; lia).
+    assert (L4 : (stage <=? 4) = true) by (apply N.leb_le; lia).
+    assert (E5 : (stage =? 5) = false) by (apply N.eqb_neq; lia).
+    rewrite L1, L4. cbn [andb]. unfold fetch_finish, create_storage. cbn [andb]. rewrite TI, E5. reflexivity.
+Qed.
+
+Theorem fetch_staged_never_stores : forall ops i p d h stage del order,
+  let s := run true ops init in
+  has_storage i s = false -> del <> 0 -> stage <= 4 ->
+  has_chg i (fst (step true s (OpFetchStaged i p d h stage del order))) = false
+  /\ snd (step true s (OpFetchStaged i p d h stage del order)) = OErrDeleted.
+Proof.
+  intros ops i p d h stage del order s Hs Hd Hst. pose proof (reach_inv ops) as HI. fold s in HI.
+  assert (C : has_chg i s = false).
+  { destruct (has_chg i s) eqn:C; [|reflexivity]. destruct (i_chg s HI i C) as [He _].
+    unfold has_storage in Hs. rewrite He, C in Hs. discriminate. }
+  destruct (tomb i s) eqn:T.
+  - (* already tombstoned before: stage 0 still records, the others fail at the tombstone check *)
+    cbn [step]. unfold fetch_staged. rewrite Hs. unfold inject_at. destruct (stage =? 0).
+    + rewrite (inject_tombs del i order s HI Hd). cbn [fst snd]. split; [|reflexivity].
+      now apply inject_no_chg.
+    + rewrite T. cbn [fst snd]. split; [exact C | reflexivity].
+  - rewrite (fetch_staged_before_commit s i p d h stage del order HI Hs T Hd Hst). cbn [fst snd].
+    split; [now apply inject_no_chg | reflexivity].
+Qed.
+
+(* stage 5 (after the first AddAll returned): an ordinary fetch, followed by an ordinary deletion of a stored tree *)
+Theorem fetch_staged_after_commit : forall s i p d h del order,
+  has_storage i s = false -> tomb i s = false ->
+  step true s (OpFetchStaged i p d h 5 del order)
+  = (let s' := inject del i order (fst (step true s (OpFetch i p d h true))) in
+     (s', opened i s' (snd (step true s (OpFetch i p d h true))))).
+Proof.
+  intros s i p d h del order Hs T. cbn [step]. unfold fetch_staged, inject_at, mid_stage. rewrite Hs.
+  cbn [N.eqb Pos.eqb N.leb N.compare Pos.compare Pos.compare_cont andb negb]. rewrite T.
+  destruct (fetch_finish true i p d h s) as [s2 o]. reflexivity.
+Qed.
+
+(* PutSyncTree: a deletion recorded before its tombstone check or between the check and the creating transaction *)
+Theorem put_staged_before_commit : forall s i p d stage del order,
+  Inv s -> tomb i s = false -> del <> 0 -> stage <= 1 ->
+  step true s (OpPutStaged i p d stage del order) = (inject del i order s, OErrDeleted).
+Proof.
+  intros s i p d stage del order HI T Hd Hst. cbn [step]. unfold put_staged.
+  pose proof (inject_tombs del i order s HI Hd) as TI.
+  unfold inject_at. destruct (stage =? 0) eqn:E0.
+  - rewrite TI. reflexivity.
+  - rewrite T. apply N.eqb_neq in E0.
+    assert (E1 : (stage =? 1) = true) by (apply N.eqb_eq; lia).
+    assert (E2 : (stage =? 2) = false) by (apply N.eqb_neq; lia).
+    rewrite E1. unfold create_storage. cbn [andb]. rewrite TI, E2. reflexivity.
+Qed.
+
 (* once tombstoned and not stored, never stored again *)
 Theorem no_resurrection : forall ops1 ops2 i,
   tomb i (run true ops1 init) = true -> has_chg i (run true ops1 init) = false ->
